@@ -60,10 +60,21 @@ def nsify(rng, root):
     return root
 
 
-def plan(tier, seed):
+def _plan0(tier, seed):
     n = 128 if tier == 'quick' else 1600
     per = 100 if tier == 'quick' else 250
     return [{'seed': seed * 99991 + i, 'n': per} for i in range(n)]
+
+
+def plan(tier, seed):
+    """... plus the shared 'lazy' units: iselect consumed step by step while the caller edits, between two items, exactly what
+    this property's pseudo-classes depend on (vlib/lazy.py; the rest of the iteration must be what the selector designates on
+    the tree as it is now)."""
+    units = _plan0(tier, seed)
+    themes = ['generic', 'nth', 'lang', 'text', 'state', 'range']
+    k = 24 if tier == 'quick' else 240
+    units += [{'kind': 'lazy', 'theme': themes[i % len(themes)], 'seed': seed * 65521 + i, 'n': 60 if tier == 'quick' else 200} for i in range(k)]
+    return units
 
 
 class Recorder:
